@@ -57,6 +57,18 @@ impl HandlerErased for Custom {
     }
 }
 
+/// a custom handler that answers with an ERROR frame of its own making: own query, own code (a handler-chosen query
+/// stays the handler's whether the frame reports success or failure)
+struct CustomErr(Arc<Log>);
+impl HandlerErased for CustomErr {
+    fn handle(&self, req: &Message) -> Result<Message, RepeError> {
+        self.0.push(json!({"ev": "invoked", "tag": "customerr"}));
+        let mut m = Message::builder().id(req.header.id).query_str("/own-query").query_format_code(1).error_code(ErrorCode::ApplicationErrorBase).body_utf8("custom failure").build();
+        m.header.ec = 4100;
+        Ok(m)
+    }
+}
+
 /// every built-in handler kind, each in an inline flavour (suffix "") and a blocking flavour (suffix "B")
 pub fn build_router(log: &Arc<Log>) -> Router { build_router_mw(log, true) }
 /// with_mw = false: no middleware, so that requests take the borrowing (view) dispatch path where a handler has one
@@ -90,6 +102,7 @@ pub fn build_router_mw(log: &Arc<Log>, with_mw: bool) -> Router {
         .with_typed_blocking::<In, In, _>("/typedB", move |x: In| { i(); Ok(In { a: x.a + 1 }) })
         .with_json_ctx_blocking("/ctxB", move |_c, v| { j(); Ok(json!({"ctx": v})) })
         .with_erased_handler("/custom", Arc::new(Custom(log.clone())))
+        .with_erased_handler("/customerr", Arc::new(CustomErr(log.clone())))
         .with_registry("/reg", reg)
         .with_struct("/st", St)
         .0
@@ -143,6 +156,7 @@ fn classes() -> Vec<Class> {
         c("mount_sibling_missing", "/regx/v", false, 1, 2, b""),
         c("struct_rawfmt", "/st/a", false, 1, 0, b"\x01\x02"),
         c("custom", "/custom", false, 1, 2, br#"{}"#),
+        c("custom_err", "/customerr", false, 1, 2, br#"{}"#),
         c("unknown_path", "/nope", false, 1, 2, br#"{}"#),
         c("raw_query_format", "/json", false, 0, 2, br#"{"a":5}"#),
         c("unknown_query_format", "/json", false, 9, 2, br#"{"a":5}"#),
